@@ -95,3 +95,140 @@ pub fn un_form(k: usize, rng: &mut Rng, blabels: &[&str], wlabels: &[&str]) -> L
         _ => Loc::Label(W::W, rng.pick(wlabels).to_string()),
     }
 }
+
+// ---------------------------------------------------------------------------------------
+// aiming an operand at a chosen physical address (the last bytes of the 1 MiB space, the wrap to 0)
+
+use crate::ref8086::{ea, r16_idx, sr_idx, Regs, DI, DS, ES, SI, SS};
+use std::collections::HashMap;
+
+/// the first memory-like operand (destination first)
+pub fn first_mem_operand(ins: &Ins) -> Option<&Loc> {
+    let pick = |l: &Loc| l.is_mem();
+    match ins {
+        Ins::Alu2(_, d, s) | Ins::Mov(d, s) => {
+            if pick(d) {
+                Some(d)
+            } else if let Src::Loc(l) = s {
+                if pick(l) {
+                    Some(l)
+                } else {
+                    None
+                }
+            } else {
+                None
+            }
+        }
+        Ins::Un(_, d) | Ins::Sh(_, d, _) | Ins::Push(d) | Ins::Pop(d) | Ins::Lea(_, d) => {
+            if pick(d) {
+                Some(d)
+            } else {
+                None
+            }
+        }
+        Ins::Xchg(a, b) => {
+            if pick(a) {
+                Some(a)
+            } else if pick(b) {
+                Some(b)
+            } else {
+                None
+            }
+        }
+        _ => None,
+    }
+}
+
+/// Change `regs` so that the first memory operand of `ins` (or the string elements DS:SI / ES:DI) lies at the
+/// physical address `target`. Returns false when the instruction has no such operand or its offset cannot be
+/// adjusted (a direct address or a label whose offset has the wrong low nibble).
+pub fn aim_operand(ins: &Ins, regs: &mut Regs, labels: &HashMap<String, u16>, target: u32) -> bool {
+    let want_low = (target & 0xF) as u16;
+    if let Ins::Str(..) = ins {
+        for (segi, offi) in [(DS, SI), (ES, DI)] {
+            regs[offi] = (regs[offi] & 0xFFF0) | want_low;
+            regs[segi] = ((((target as u64 + (1 << 20)) - regs[offi] as u64) >> 4) & 0xFFFF) as u16;
+        }
+        return true;
+    }
+    let loc = match first_mem_operand(ins) {
+        Some(l) => l.clone(),
+        None => return false,
+    };
+    let (segi, off) = match &loc {
+        Loc::Label(_, name) => match labels.get(name) {
+            Some(o) => (DS, *o),
+            None => return false,
+        },
+        Loc::Mem(_, m) => {
+            // adjust a participating register so that the offset gets the wanted low nibble
+            let (_, off0) = ea(regs, m);
+            let delta = want_low.wrapping_sub(off0) & 0xF;
+            if delta != 0 {
+                let reg = match m.form {
+                    MemForm::Direct(_) => return false,
+                    MemForm::Ind(r) | MemForm::Based(r, _) | MemForm::Indexed(r, _) => r,
+                    MemForm::BasedIndexed(_, i, _) => i,
+                };
+                regs[r16_idx(reg)] = regs[r16_idx(reg)].wrapping_add(delta);
+            }
+            let (_, off) = ea(regs, m);
+            let segi = match m.seg {
+                Some(s) => sr_idx(s),
+                None => {
+                    if m.uses_bp() {
+                        SS
+                    } else {
+                        DS
+                    }
+                }
+            };
+            (segi, off)
+        }
+        _ => return false,
+    };
+    if off & 0xF != want_low {
+        return false;
+    }
+    regs[segi] = ((((target as u64 + (1 << 20)) - off as u64) >> 4) & 0xFFFF) as u16;
+    // a register may serve as offset part and be recomputed: verify
+    let ok = match &loc {
+        Loc::Mem(_, m) => {
+            let (s, o) = ea(regs, m);
+            (s as u32 * 16 + o as u32) % (1 << 20) == target
+        }
+        _ => (regs[segi] as u32 * 16 + off as u32) % (1 << 20) == target,
+    };
+    ok
+}
+
+/// labels whose offsets let every target nibble be reached (used by the end-of-memory planes)
+pub const EDGE_LABELS: [(&str, u16); 3] = [("vwf", 0x000F), ("vwg", 0x123E), ("vbf", 0x777F)];
+
+/// rename label operands to the edge labels half of the time
+pub fn rename_label(ins: &mut Ins, rng: &mut Rng) {
+    let f = |l: &mut Loc, rng: &mut Rng| {
+        if let Loc::Label(w, name) = l {
+            if rng.chance(1, 2) {
+                *name = match w {
+                    W::W => (*rng.pick(&["vwf", "vwg"])).to_string(),
+                    W::B => "vbf".to_string(),
+                };
+            }
+        }
+    };
+    match ins {
+        Ins::Alu2(_, d, s) | Ins::Mov(d, s) => {
+            f(d, rng);
+            if let Src::Loc(l) = s {
+                f(l, rng);
+            }
+        }
+        Ins::Un(_, d) | Ins::Sh(_, d, _) | Ins::Push(d) | Ins::Pop(d) | Ins::Lea(_, d) => f(d, rng),
+        Ins::Xchg(a, b) => {
+            f(a, rng);
+            f(b, rng);
+        }
+        _ => {}
+    }
+}
